@@ -2,11 +2,13 @@
 # Applies every confirmed seeded change to /repo (git apply), runs the check of its property (and of related ones),
 # undoes it (git checkout -- .) and records which checks reported a violation.
 cd /verif
+REPO=${REPO:-/repo}
 for d in ${SEEDS:-seeded/*/}; do
   id=$(basename $d); prop=${id%_*}
-  git -C /repo apply /verif/$d/patch.diff 2>/dev/null || { echo "$id: patch does not apply"; continue; }
-  out=$(timeout 1800 ./check $prop 2>&1); rc=$?
-  git -C /repo checkout -- .
+  if grep -q '"obsolete"' /verif/$d/meta.json; then echo "$id: obsolete (see meta.json)"; continue; fi
+  git -C $REPO apply /verif/$d/patch.diff 2>/dev/null || { echo "$id: patch does not apply"; continue; }
+  out=$(VERIF_REPO=$REPO timeout 1800 ./check $prop 2>&1); rc=$?
+  git -C $REPO checkout -- .
   viol=$(echo "$out" | grep -c '^VIOLATION')
   first=$(echo "$out" | grep '^VIOLATION' | head -2 | sed 's/.*replay=//' | tr '\n' ' ')
   echo "$id: check $prop exit=$rc violations=$viol $first"
